@@ -6,6 +6,7 @@ from . import mirparse as MP
 from .symex import (Executor, State, Sym, Obj, VecV, Ref, FnItem, FutureV, UNIT, Unsupported, fresh_name,
                     base_type, generic_args, norm_callee, pointee)
 from . import summaries as S
+from . import iters as IT
 
 BV64 = S.BV64
 
@@ -85,6 +86,7 @@ class Crate:
 
     def __init__(self, mir_text, src_root):
         self.bodies = MP.parse_bodies(mir_text)
+        self.consts = MP.parse_consts(mir_text)
         self.enums = scan_enums(os.path.join(src_root, "src"))
         self.structs = scan_struct_fields(os.path.join(src_root, "src"))
         self.src_root = src_root
@@ -358,10 +360,11 @@ def mk_executor(crate, cap=8, loop_bound=12, inline=None, extra_summaries=None, 
     havoc_rx = [re.compile(x) for x in DEFAULT_HAVOC + (havoc or [])]
     ex = Executor(crate.bodies, enums=crate.enums, cap=cap, loop_bound=loop_bound,
                   inline=lambda body: any(r.search(canon_name(body)) for r in inline_rx),
-                  summaries=S.compile_summaries((extra_summaries or []) + PEARL_SUMMARIES),
+                  summaries=S.compile_summaries((extra_summaries or []) + PEARL_SUMMARIES + IT.ITER_SUMMARIES),
                   havoc=lambda name: any(r.search(name) for r in havoc_rx),
                   max_paths=max_paths)
     ex.crate = crate
+    ex.named_consts = crate.consts
     ex.find_body = crate.resolve_callee
     return ex
 
@@ -433,3 +436,31 @@ def finish(ex, res, needed_covers):
             res.status = "vacuous"
             res.detail = "reachability witness missing: %s" % missing
     return res
+
+
+# ---------------------------------------------------------------------------------------------
+# driving coroutine bodies (`async fn` / async_trait blocks) directly
+# ---------------------------------------------------------------------------------------------
+def start_coroutine(ex, st, closure_body, captures):
+    """closure_body: the `...::{closure#0}(_1: Pin<&mut {async ...}>, _2: &mut Context)` body.
+    captures: list of values for the coroutine's upvar fields 0..n-1.  Pushes the first poll."""
+    MP.parse_body(closure_body)
+    cty = closure_body.args[0][1]
+    m = re.match(r"^Pin<&mut (.*)>$", cty)
+    co = Obj(m.group(1) if m else cty)
+    co.discr = Sym(BV64(0), "isize")
+    for i, c in enumerate(captures):
+        co.fields[(None, i)] = c
+    cc = st.new_cell(co)
+    pin = Obj(cty)
+    pin.fields[(None, 0)] = Ref(cc, (), True, "&mut " + co.ty)
+    cx = Obj("&mut std::task::Context<'_>")
+    ex.push_frame(st, closure_body, [pin, cx], None, None)
+    return cc
+
+
+def poll_payload(ex, st, poll_val):
+    """for a returned Poll<T>: (is_ready term, payload or None)"""
+    d = ex.get_discr(st, poll_val).t
+    payload = poll_val.fields.get(("Ready", 0))
+    return d == BV64(0), payload
